@@ -154,7 +154,7 @@ let stream_event r t =
       | WInt (Some x) -> r.sst <- { s' with woken = false }; Printf.printf "OBS %s %se%d I%d W-\n" id pre r.sk (int_of_nat x))
    | "i" -> r.sst <- fst (sstep sc r.sst SInt); Printf.printf "OBS %s %se%d W%s\n" id pre r.sk (w r.sst)
    | "x" -> r.sst <- fst (sstep sc r.sst SDropStream); Printf.printf "OBS %s %se%d W%s\n" id pre r.sk (w r.sst)
-   | _ when String.length t >= 2 && t.[0] = 'd' ->
+   | _ when String.length t >= 2 && (t.[0] = 'd' || t.[0] = 'u') ->   (* u<i>: dropped while a panic unwinds = a drop *)
      let i = int_of_string (String.sub t 1 (String.length t - 1)) in
      r.sst <- fst (sstep sc r.sst (SDrop (nat_of_int i))); Printf.printf "OBS %s %se%d W%s\n" id pre r.sk (w r.sst)
    | _ -> failwith ("bad stream event " ^ t));
